@@ -25,6 +25,7 @@ import (
 	"bytes"
 	"compress/gzip"
 	"context"
+	"crypto/md5"
 	_ "crypto/sha256"
 	_ "crypto/sha512"
 	"encoding/hex"
@@ -109,7 +110,10 @@ type Layer struct {
 
 type Push struct {
 	Layers  []Layer `json:"layers,omitempty"` // kind M
-	Kind    string  `json:"kind"` // B | U | M (image manifest with named layers; judged by the oracle only)
+	// Fail (kind U): 1 the gzip blob fails verification, 2 the tar stream breaks off after the
+	// entries, 3 the digest annotation of the uncompressed tar does not match
+	Fail int `json:"fail,omitempty"`
+	Kind    string  `json:"kind"` // B | U | M (unnamed image manifest with named layers: restoreDuplicates)
 	Title   string  `json:"title"`
 	Tag     int     `json:"tag,omitempty"`
 	Entries []Entry `json:"entries,omitempty"`
@@ -122,8 +126,8 @@ type Case struct {
 	// Wd: how the working directory exists when the store is opened (audit F2):
 	//  ""        a real directory reached through real directories (the theorem's Inv)
 	//  "missing" it does not exist yet (the first push creates it); modelled
-	//  "link"    <s3>/wd is a symbolic link to the directory <s3>/wdreal; oracle only
-	//  "via"     the store is opened as <s2>/via/wd where via -> s3; oracle only
+	//  "link"    <s3>/wd is a symbolic link to the directory <s3>/wdreal; modelled (Lstat = kernel walk)
+	//  "via"     the store is opened as <s2>/via/wd where via -> s3; modelled
 	Wd string `json:"wd,omitempty"`
 	Origin   string `json:"origin,omitempty"`
 }
@@ -199,6 +203,118 @@ var harnessFiles = map[string]bool{"/cases.txt": true, "/impl.txt": true, "/orac
 // not exist when the store was opened (its creation is the store's own business)
 var physWd = wdDir
 var wdGone = false
+
+// outsideClean: the previous case ended with everything outside the working directory untouched
+var outsideClean = false
+
+// content cache for the tree walks: a file whose inode, change time and size are the same has
+// the same content
+type contentKey struct {
+	ino   uint64
+	ctime int64
+	size  int64
+}
+
+var contentCache = map[string]struct {
+	k contentKey
+	b string
+}{}
+
+func readCached(p string, fi os.FileInfo) string {
+	st, ok := fi.Sys().(*syscall.Stat_t)
+	if !ok {
+		b, _ := os.ReadFile(p)
+		return string(b)
+	}
+	k := contentKey{st.Ino, st.Ctim.Nano(), fi.Size()}
+	if e, ok := contentCache[p]; ok && e.k == k {
+		return e.b
+	}
+	b, _ := os.ReadFile(p)
+	contentCache[p] = struct {
+		k contentKey
+		b string
+	}{k, string(b)}
+	return string(b)
+}
+
+// scan walks the whole tree once and returns both the snapshot of everything that is not below the
+// working directory (oracle) and the listing of the whole tree (correspondence)
+func scan() (map[string]objInfo, string) {
+	out := map[string]objInfo{}
+	var items []string
+	var rec func(p string, inWd bool)
+	rec = func(p string, inWd bool) {
+		fi, err := os.Lstat(p)
+		if err != nil {
+			return
+		}
+		var o objInfo
+		o.Mode = uint32(fi.Mode().Perm())
+		if st, ok := fi.Sys().(*syscall.Stat_t); ok {
+			o.Ino = st.Ino
+		}
+		hp := hex.EncodeToString([]byte(p))
+		st := ""
+		if !(p == physWd || strings.HasPrefix(p, physWd+"/")) {
+			if k := stampOf(fi.ModTime()); k > 0 {
+				st = "@" + strconv.Itoa(k)
+			}
+		}
+		switch {
+		case fi.Mode()&os.ModeSymlink != 0:
+			o.Type = "l"
+			o.Target, _ = os.Readlink(p)
+			items = append(items, hp+":l"+common.Hex(o.Target))
+		case fi.IsDir():
+			o.Type = "d"
+			if p != "/" {
+				items = append(items, fmt.Sprintf("%s:d%d%s", hp, fi.Mode().Perm(), st))
+			}
+		case fi.Mode().IsRegular():
+			o.Type = "f"
+			o.Size = fi.Size()
+			b := readCached(p, fi)
+			o.Content = b
+			if _, err := strconv.Atoi(b); err == nil {
+				items = append(items, fmt.Sprintf("%s:f%sm%d%s", hp, b, fi.Mode().Perm(), st))
+			} else {
+				items = append(items, hp+":f?"+hex.EncodeToString([]byte(b)))
+			}
+		default:
+			o.Type = "o"
+			items = append(items, hp+":o")
+		}
+		o.Mtime = fi.ModTime().UnixNano()
+		record := !inWd && p != "/" && !(p == physWd && wdGone)
+		if wdGone && p == path.Dir(physWd) {
+			o.Mtime = 0 // the store creates its working directory: a new entry in the parent
+		}
+		if p == physWd {
+			// the working directory's own attributes are the store's; its entry in the
+			// parent directory (existence, type, identity) is not
+			o.Mode = 0
+			o.Mtime = 0
+		}
+		if record {
+			out[p] = o
+		}
+		if o.Type == "d" {
+			des, _ := os.ReadDir(p)
+			for _, de := range des {
+				c := path.Join(p, de.Name())
+				if harnessFiles[c] {
+					continue
+				}
+				rec(c, inWd || p == physWd)
+			}
+		}
+	}
+	rec("/", false)
+	key := func(s string) string { return s[:strings.IndexByte(s, ':')] }
+	sort.Slice(items, func(i, j int) bool { return key(items[i]) < key(items[j]) })
+	return out, strings.Join(items, ",")
+}
 
 func snapshotOutside() map[string]objInfo {
 	out := map[string]objInfo{}
@@ -375,7 +491,9 @@ func listing() string {
 	return strings.Join(items, ",")
 }
 
-func buildTarGz(es []Entry) []byte {
+func buildTarGz(es []Entry) []byte { return buildTarGzF(es, false) }
+
+func buildTarGzF(es []Entry, broken bool) []byte {
 	var buf bytes.Buffer
 	gz := gzip.NewWriter(&buf)
 	tw := tar.NewWriter(gz)
@@ -406,7 +524,13 @@ func buildTarGz(es []Entry) []byte {
 			}
 		}
 	}
-	tw.Close()
+	if broken {
+		// no end-of-archive marker but a block that is not a header
+		tw.Flush()
+		gz.Write(bytes.Repeat([]byte("x"), 512))
+	} else {
+		tw.Close()
+	}
 	gz.Close()
 	return buf.Bytes()
 }
@@ -453,14 +577,6 @@ func fallbackHas(ps []Push, tag int) bool {
 }
 
 func modelLine(c Case, cfg string) string {
-	if c.Wd == "link" || c.Wd == "via" {
-		return "X" // working directory behind / being a symbolic link: judged by the oracle only
-	}
-	for _, p := range c.Pushes {
-		if p.Kind == "M" {
-			return "X" // manifests (restoreDuplicates) are not modelled: judged by the oracle only
-		}
-	}
 	var sb strings.Builder
 	pres := 0
 	if c.Preserve {
@@ -475,7 +591,23 @@ func modelLine(c Case, cfg string) string {
 			}
 		}
 	}
-	fmt.Fprintf(&sb, "%s %d %s %s %d", cfg, pres, common.Hex(wdDir), common.Hex(cwdDir), len(prep))
+	lexWd, phys := wdDir, wdDir
+	switch c.Wd {
+	case "link": // <s3>/wd is a link to the directory <s3>/wdreal, which holds the content
+		phys = s3Dir + "/wdreal"
+		var q []Prep
+		for _, p := range prep {
+			if p.Path == wdDir || strings.HasPrefix(p.Path, wdDir+"/") {
+				p.Path = phys + strings.TrimPrefix(p.Path, wdDir)
+			}
+			q = append(q, p)
+		}
+		prep = append(q, Prep{Kind: "l", Path: wdDir, Target: "wdreal"})
+	case "via": // the store is opened as <s2>/via/wd, via -> s3
+		lexWd = "/sb/s0/s1/s2/via/wd"
+		prep = append(append([]Prep{}, prep...), Prep{Kind: "l", Path: "/sb/s0/s1/s2/via", Target: "s3"})
+	}
+	fmt.Fprintf(&sb, "%s %d %s %s %s %d", cfg, pres, common.Hex(lexWd), common.Hex(phys), common.Hex(cwdDir), len(prep))
 	for _, p := range prep {
 		if p.Kind == "d" {
 			fmt.Fprintf(&sb, " d %s", common.Hex(p.Path))
@@ -491,7 +623,18 @@ func modelLine(c Case, cfg string) string {
 			fmt.Fprintf(&sb, " B %s %d", common.Hex(p.Title), p.Tag)
 			continue
 		}
-		fmt.Fprintf(&sb, " U %s %d", common.Hex(p.Title), len(p.Entries))
+		if p.Kind == "M" {
+			fmt.Fprintf(&sb, " M %d", len(p.Layers))
+			for _, l := range p.Layers {
+				fmt.Fprintf(&sb, " %s %d", common.Hex(l.Title), l.Tag)
+			}
+			continue
+		}
+		if p.Fail != 0 {
+			fmt.Fprintf(&sb, " F %d %s %d", p.Fail, common.Hex(p.Title), len(p.Entries))
+		} else {
+			fmt.Fprintf(&sb, " U %s %d", common.Hex(p.Title), len(p.Entries))
+		}
 		for _, e := range p.Entries {
 			switch e.Kind {
 			case "r":
@@ -509,7 +652,7 @@ func modelLine(c Case, cfg string) string {
 	return sb.String()
 }
 
-var modelCfg = "111111"
+var modelCfg = "1111111"
 
 func runCase(c Case) {
 	// archive/tar cannot encode a regular entry whose name ends in a slash (replay files may ask for it)
@@ -525,12 +668,38 @@ func runCase(c Case) {
 		}
 	}
 	id := run.NewID()
-	// fresh tree
+	// fresh tree.  When the previous case left everything outside the working directory as it was
+	// (no oracle failure, standard layout) and this case starts from the standard decoys, only the
+	// working directory is rebuilt.
 	os.Chdir("/")
-	if err := os.RemoveAll(sbRoot); err != nil {
+	base := basePrep()
+	reuse := outsideClean && len(c.Prep) >= len(base)
+	for i := 0; reuse && i < len(base); i++ {
+		reuse = c.Prep[i] == base[i]
+	}
+	for _, p := range c.Prep[min(len(base), len(c.Prep)):] {
+		if !(strings.HasPrefix(p.Path, wdDir+"/")) {
+			reuse = false
+		}
+	}
+	if reuse {
+		if err := os.RemoveAll(wdDir); err != nil {
+			panic(err)
+		}
+	} else if err := os.RemoveAll(sbRoot); err != nil {
 		panic(err)
 	}
-	for _, p := range c.Prep {
+	outsideClean = c.Wd == ""
+	failsBefore := run.OracleFails
+	defer func() {
+		if run.OracleFails != failsBefore {
+			outsideClean = false
+		}
+	}()
+	for i, p := range c.Prep {
+		if reuse && i < len(base) && p.Path != wdDir {
+			continue
+		}
 		if !strings.HasPrefix(p.Path, sbRoot) {
 			panic("prep outside sandbox: " + p.Path)
 		}
@@ -584,9 +753,11 @@ func runCase(c Case) {
 	store.PreservePermissions = c.Preserve
 	ctx := context.Background()
 	verdicts := ""
+	steps := ""
 	nontrivial := false
 	var before map[string]objInfo
 	hasManifest := false
+	lastListing := ""
 	for i, p := range c.Pushes {
 		var blob []byte
 		ann := map[string]string{ocispec.AnnotationTitle: p.Title}
@@ -613,24 +784,45 @@ func runCase(c Case) {
 			ann = nil
 			hasManifest = true
 		default:
-			blob = buildTarGz(p.Entries)
+			blob = buildTarGzF(p.Entries, p.Fail == 2)
 			ann[file.AnnotationUnpack] = "true"
+			switch p.Fail {
+			case 1:
+				dgst = digest.FromBytes(append(append([]byte{}, blob...), 'x'))
+			case 3:
+				ann[file.AnnotationDigest] = digest.FromBytes([]byte("not this tar")).String()
+			}
 		}
 		if dgst == "" {
 			dgst = digest.FromBytes(blob)
 		}
 		desc := ocispec.Descriptor{MediaType: mediaType, Digest: dgst, Size: int64(len(blob)), Annotations: ann}
 		if before == nil {
-			before = snapshotOutside()
+			before, _ = scan()
 		}
-		err := store.Push(ctx, desc, bytes.NewReader(blob))
-		after := snapshotOutside()
+		// watchdog: a push that does not return within 30 s is reported (with its replay), not waited for
+		errc := make(chan error, 1)
+		go func() { errc <- store.Push(ctx, desc, bytes.NewReader(blob)) }()
+		var err error
+		select {
+		case err = <-errc:
+		case <-time.After(30 * time.Second):
+			run.OracleFail(id, "wedged-push", fmt.Sprintf("push #%d title %q did not return within 30 s", i, p.Title), c)
+			run.Case(id, modelLine(c, modelCfg), "WEDGED")
+			run.Finish()
+			os.Exit(0)
+		}
+		after, lst := scan()
+		lastListing = lst
 		if err == nil {
 			verdicts += "O"
 			nontrivial = true
 		} else {
 			verdicts += "E"
 		}
+		// the whole tree after every push (digest), not only at the end
+		sum := md5.Sum([]byte(lst))
+		steps += verdicts[len(verdicts)-1:] + hex.EncodeToString(sum[:4])
 		// oracle 1: nothing outside the working directory changed
 		if kind, msg := diffSnap(before, after); kind != "" {
 			what := "blob"
@@ -676,9 +868,38 @@ func runCase(c Case) {
 			}
 		}
 	}
+	// the store's book-keeping: Exists for every (title, content) pushed or named as a layer
+	ex := ""
+	query := func(title string, tag int) {
+		b := []byte(strconv.Itoa(tag))
+		d := ocispec.Descriptor{MediaType: "application/vnd.verif.blob", Digest: digest.FromBytes(b), Size: int64(len(b))}
+		if title != "" {
+			d.Annotations = map[string]string{ocispec.AnnotationTitle: title}
+		}
+		if ok, err := store.Exists(ctx, d); err == nil && ok {
+			ex += "1"
+		} else {
+			ex += "0"
+		}
+	}
+	for _, p := range c.Pushes {
+		switch p.Kind {
+		case "B":
+			query(p.Title, p.Tag)
+		case "M":
+			for _, l := range p.Layers {
+				query(l.Title, l.Tag)
+			}
+		default:
+			query(p.Title, 41)
+		}
+	}
 	os.Chdir("/")
 	store.Close()
-	obs := verdicts + "|" + listing()
+	if lastListing == "" {
+		lastListing = listing()
+	}
+	obs := steps + "|" + lastListing + "|X" + ex
 	line := modelLine(c, modelCfg)
 	run.Case(id, line, obs)
 	run.Count("pushes=" + strconv.Itoa(len(c.Pushes)))
@@ -687,7 +908,7 @@ func runCase(c Case) {
 		run.Count("origin=" + c.Origin)
 	}
 	if hasManifest {
-		run.Count("unjudged-by-model(manifest)")
+		run.Count("manifest-cases")
 	}
 	if c.Wd != "" {
 		run.Count("wd=" + c.Wd)
@@ -710,7 +931,15 @@ func runCase(c Case) {
 
 var segs = []string{"a", "b", "c", "s", "t", "x", "victim", "k"}
 
-func pickSeg(r *common.Rand) string { return common.Pick(r, segs) }
+// longSeg is longer than the 100 bytes of a USTAR name field (PAX long name / long link target)
+var longSeg = strings.Repeat("n", 120)
+
+func pickSeg(r *common.Rand) string {
+	if r.Chance(1, 60) {
+		return longSeg
+	}
+	return common.Pick(r, segs)
+}
 
 func relName(r *common.Rand, pool []string) string {
 	// a relative name below some directory: fresh segments or an extension of an earlier name
@@ -884,6 +1113,9 @@ func genUnpack(r *common.Rand, title string, earlier *[]string, tag *int) Push {
 		case k < 5:
 			e.Kind = "d"
 			e.Mode = common.Pick(r, []int{0, 0, 0o700, 0o777, 0o750})
+			if r.Chance(1, 3) {
+				e.Name += "/" // as GNU tar writes directory names
+			}
 		case k < 8:
 			e.Kind = "s"
 			e.Target = genTarget(r, dirRel, names)
@@ -970,6 +1202,10 @@ func genRandom(r *common.Rand) Case {
 		}
 		if r.Chance(2, 3) {
 			c.Pushes = append(c.Pushes, genUnpack(r, title, &earlier, &tag))
+			if r.Chance(1, 8) {
+				c.Pushes[len(c.Pushes)-1].Fail = 1 + r.Intn(3)
+				run.Count("failing-archive")
+			}
 		} else {
 			tag++
 			if len(earlier) > 0 && r.Chance(1, 4) {
@@ -1006,7 +1242,7 @@ func genTemplate(r *common.Rand) Case {
 	c := Case{Prep: basePrep(), Preserve: r.Chance(1, 4)}
 	t := common.Pick(r, []string{"t", "a", "k", "t/b"})
 	fin := common.Pick(r, []string{"victim", "a", "x/victim", "k"})
-	switch k := r.Intn(20); k {
+	switch k := r.Intn(24); k {
 	case 0: // raw link target goes through an earlier link and climbs
 		c.Origin = "tpl-raw-target"
 		d := 1 + r.Intn(3)
@@ -1091,13 +1327,91 @@ func genTemplate(r *common.Rand) Case {
 			c.Pushes = []Push{{Kind: "U", Title: "u", Entries: []Entry{{Kind: "r", Name: "u/" + fin, Tag: 6}}},
 				{Kind: "U", Title: "v", Entries: []Entry{{Kind: "h", Name: "v/h", Target: "../u/victim"}, {Kind: "r", Name: "v/h", Tag: 7}}}}
 		}
-	case 17: // manifest whose named layers are restored from content the store already holds
+	case 19, 20, 21: // histories on one store that revisit a path with another kind of entry:
+		// (1) something makes the store create / check the directory P, (2) a later archive replaces
+		// P (directory -> chained link, link -> directory, directory -> file ...), (3) a write at or
+		// below P.  Every operation has to walk the path again in the current tree.
+		c.Origin = "tpl-revisit"
+		a := common.Pick(r, []string{"a", "t", "k"})
+		e := common.Pick(r, []string{"e", "c", "b/e"})
+		P := a + "/" + e
+		up := ""
+		if strings.Contains(e, "/") {
+			up = "../"
+		}
+		// chained links, each lexically inside the unpack directory a: p -> ., q -> p/.. (= wd),
+		// q2 -> q/.. (one above wd) ...; P -> <last>/..
+		chain := []Entry{{Kind: "s", Name: a + "/p", Target: "."}, {Kind: "s", Name: a + "/q", Target: "p/.."}}
+		last := "q"
+		for i := 0; i < r.Intn(3); i++ {
+			nm := fmt.Sprintf("q%d", i+2)
+			chain = append(chain, Entry{Kind: "s", Name: a + "/" + nm, Target: last + "/.."})
+			last = nm
+		}
+		var p1, p2 []Push
+		switch r.Intn(5) {
+		case 0:
+			p1 = []Push{{Kind: "U", Title: P, Entries: []Entry{{Kind: "d", Name: P}}}}
+		case 1:
+			p1 = []Push{{Kind: "B", Title: P + "/x", Tag: 0}} // fails verification: P stays, empty
+		case 2:
+			p1 = []Push{{Kind: "U", Title: a, Entries: []Entry{{Kind: "d", Name: P, Mode: 0o700}}}}
+		case 3:
+			p1 = []Push{{Kind: "U", Title: P, Entries: nil}, {Kind: "B", Title: P + "/y", Tag: 0}}
+		default: // P is a link first
+			p1 = []Push{{Kind: "U", Title: a, Entries: append(append([]Entry{}, chain...), Entry{Kind: "s", Name: P, Target: up + last + "/.."})}}
+		}
+		switch r.Intn(5) {
+		case 0, 1, 2:
+			p2 = []Push{{Kind: "U", Title: a + "x", Entries: nil}, {Kind: "U", Title: a, Entries: append(append([]Entry{}, chain...), Entry{Kind: "s", Name: P, Target: up + last + "/.."})}}
+			if r.Bool() {
+				p2 = p2[1:]
+			}
+		case 3:
+			p2 = []Push{{Kind: "U", Title: a, Entries: []Entry{{Kind: "r", Name: P, Tag: 21}, {Kind: "d", Name: P}, {Kind: "s", Name: P, Target: "."}}}}
+		default:
+			p2 = []Push{{Kind: "U", Title: a, Entries: []Entry{{Kind: "d", Name: P}, {Kind: "d", Name: P + "/sub"}}}}
+		}
+		var p3 []Push
+		leaf := common.Pick(r, []string{"victim", "created", "x/victim", "victim"})
+		switch r.Intn(5) {
+		case 0, 1:
+			p3 = []Push{{Kind: "B", Title: P + "/" + leaf, Tag: 22}}
+		case 2:
+			p3 = []Push{{Kind: "U", Title: P, Entries: []Entry{{Kind: "r", Name: P + "/" + leaf, Tag: 23}}}}
+		case 3:
+			p3 = []Push{{Kind: "B", Title: P + "/" + leaf, Tag: 0}, {Kind: "B", Title: P, Tag: 24}}
+		default:
+			p3 = []Push{{Kind: "U", Title: a + "/z", Entries: []Entry{{Kind: "h", Name: a + "/z/h", Target: "../" + e + "/victim"}, {Kind: "r", Name: a + "/z/h", Tag: 25}}},
+				{Kind: "B", Title: P + "/" + leaf, Tag: 26}}
+		}
+		c.Pushes = append(append(p1, p2...), p3...)
+	case 17, 22: // manifest whose named layers are restored from content the store already holds
 		c.Origin = "tpl-manifest-layers"
 		titles := []string{pickSeg(r), "m/" + pickSeg(r), "../victim", "../wd-old/victim.txt", s3Dir + "/victim", "a/../../x/victim", wdDir + "/ok"}
 		common.Shuffle(r, titles)
 		c.Pushes = []Push{{Kind: "B", Title: "", Tag: 41}, {Kind: "B", Title: "", Tag: 42},
 			{Kind: "M", Layers: []Layer{{Title: titles[0], Tag: 41}, {Title: titles[1], Tag: 42}, {Title: titles[2], Tag: 43}}}}
-		if r.Bool() {
+		switch r.Intn(4) {
+		case 0:
+			// content held in a named file: restored from that file as it is now
+			if r.Chance(2, 3) {
+				titles[0], titles[1] = "r1", "m/r2"
+			}
+			c.Pushes = []Push{{Kind: "B", Title: "n1", Tag: 51}, {Kind: "B", Title: "d/n2", Tag: 52},
+				{Kind: "M", Layers: []Layer{{Title: titles[0], Tag: 51}, {Title: "n1", Tag: 51}, {Title: titles[1], Tag: 52}, {Title: "copy", Tag: 52}}},
+				{Kind: "M", Layers: []Layer{{Title: titles[0], Tag: 51}, {Title: "n1", Tag: 51}, {Title: titles[1], Tag: 52}, {Title: "copy", Tag: 52}}},
+				{Kind: "M", Layers: []Layer{{Title: "copy2", Tag: 52}, {Title: "", Tag: 51}}}}
+		case 1:
+			// the file was replaced since (other content, a link, gone): mismatch / not found
+			c.Pushes = []Push{{Kind: "U", Title: "t", Entries: []Entry{{Kind: "d", Name: "t/b/b/b"}, {Kind: "s", Name: "t/b/b/b/s", Target: "../../.."}}},
+				{Kind: "B", Title: "t/n1", Tag: 51}, {Kind: "B", Title: "t/n2", Tag: 52}, {Kind: "B", Title: "t/n3", Tag: 53},
+				{Kind: "U", Title: "t/z", Entries: []Entry{{Kind: "h", Name: "t/z/h", Target: "../n1"}, {Kind: "r", Name: "t/z/h", Tag: 54}}},
+				{Kind: "U", Title: "t", Entries: []Entry{{Kind: "s", Name: "t/n2", Target: "b/b/b/s/../../victim"}, {Kind: "s", Name: "t/n3", Target: "gone"}}},
+				{Kind: "M", Layers: []Layer{{Title: "r3", Tag: 53}, {Title: titles[0], Tag: 52}, {Title: "r1", Tag: 51}, {Title: "never", Tag: 52}}}}
+			common.Shuffle(r, c.Pushes[6].Layers)
+		}
+		if len(c.Pushes) == 3 && r.Bool() {
 			// through a link planted earlier
 			c.Pushes = append([]Push{{Kind: "U", Title: "t", Entries: []Entry{{Kind: "d", Name: "t/b/b/b"},
 				{Kind: "s", Name: "t/b/b/b/s", Target: "../../.."}, {Kind: "s", Name: "t/l", Target: "b/b/b/s/../.."}}}}, c.Pushes...)
@@ -1307,7 +1621,7 @@ func main() {
 	run = common.Start("C11")
 	defer run.Finish()
 	run.Rule = "exhaustive: every 2-entry archive over 3 names x {reg,dir,symlink,hardlink} x 6 targets (thorough: + follow-up blobs, + all 3-entry archives over a sub-alphabet); random: cases = pre-populated tree + 1..3 pushes (named blob or tar+gzip to unpack, 1..6 entries over reg/dir/symlink/hardlink/other); names, titles and link targets from a grammar of segments, '..', '.', empty segments, absolute forms, earlier entry names and cwd decoys, plus perturbed attack templates; distinct = distinct case line; non-trivial = at least one push accepted"
-	if v := os.Getenv("C11_CFG"); len(v) == 6 {
+	if v := os.Getenv("C11_CFG"); len(v) == 7 {
 		modelCfg = v
 	}
 	var replayData []byte
@@ -1355,7 +1669,7 @@ func main() {
 		enumerate(entryAlphabet([]string{"t/a", "t/a/c"}, []string{"..", "a", "a/../../victim", wdDir + "/t/a"}), 3, nil)
 	}
 	r := run.Rand
-	n := run.Scale(800, 12000)
+	n := run.Scale(900, 36000)
 	for i := 0; i < n; i++ {
 		if i%4 == 0 {
 			runCase(stamped(r, genTemplate(r)))
@@ -1367,7 +1681,7 @@ func main() {
 	// coverage floors: a run in which a stream produced nothing must not pass silently
 	for _, k := range []string{"origin=exhaustive-2", "origin=random", "origin=tpl-deep-below-link", "origin=tpl-raw-target",
 		"origin=tpl-prefix-sibling", "origin=tpl-hardlink-nested-dotdot", "origin=tpl-manifest-layers", "origin=tpl-bad-content",
-		"origin=tpl-prepop-hardlink", "wd=missing", "wd=link", "wd=via", "push.B", "push.U", "push.M", "entry.r", "entry.d", "entry.h", "entry.s"} {
+		"origin=tpl-prepop-hardlink", "origin=tpl-revisit", "wd=missing", "wd=link", "wd=via", "failing-archive", "manifest-cases", "push.B", "push.U", "push.M", "entry.r", "entry.d", "entry.h", "entry.s"} {
 		if run.Dist[k] == 0 {
 			fmt.Fprintln(os.Stderr, "C11 harness: coverage floor not met:", k, "= 0")
 			run.Finish()
